@@ -20,6 +20,7 @@ type simNet struct {
 	joined   map[string]string   // folded chan -> spelling, channels I am in
 	modes    map[string]map[byte]string
 	prefixes string // "(qaohv)~&@%+" or "(ov)@+"
+	chanmodes string // CHANMODES announced in 005
 	extJoin  bool
 	uhNames  bool
 	out      []string
@@ -308,9 +309,10 @@ func (n *simNet) step() {
 				flags.WriteByte(s)
 				sign = s
 			}
+			cls := strings.Split(n.chanmodes, ",")
 			switch r.Intn(6) {
 			case 0: // D
-				l := byte(r.Pick([]string{"i", "m", "n", "p", "s", "t"})[0])
+				l := cls[3][r.Intn(len(cls[3]))]
 				flags.WriteByte(l)
 				if add {
 					n.modes[c][l] = ""
@@ -326,18 +328,24 @@ func (n *simNet) step() {
 				} else {
 					delete(n.modes[c], 'k')
 				}
-			case 2: // C (l): argument only when set
-				flags.WriteByte('l')
+			case 2: // C: argument only when set
+				l := cls[2][r.Intn(len(cls[2]))]
+				flags.WriteByte(l)
 				if add {
 					lim := fmt.Sprint(5 + r.Intn(50))
 					args.WriteString(" " + lim)
-					n.modes[c]['l'] = lim
+					n.modes[c][l] = lim
 				} else {
-					delete(n.modes[c], 'l')
+					delete(n.modes[c], l)
 				}
-			case 3: // A (b): list mode
-				flags.WriteByte('b')
-				args.WriteString(" *!*@bad.host")
+			case 3: // A: list mode; the argument is a mask, on some networks a bare nick
+				l := cls[0][r.Intn(len(cls[0]))]
+				flags.WriteByte(l)
+				if r.Chance(30) {
+					args.WriteString(" " + m[r.Intn(len(m))].nick)
+				} else {
+					args.WriteString(" *!*@bad.host")
+				}
 			default: // privilege
 				l := n.modeLetters()[r.Intn(len(n.modeLetters()))]
 				t := m[r.Intn(len(m))]
@@ -416,6 +424,10 @@ func simHistory(r *RNG, length int) []string {
 		n.users[lowerRFC(nk)] = u
 	}
 	n.prefixes = r.Pick([]string{"(ov)@+", "(qaohv)~&@%+"})
+	n.chanmodes = "beI,k,l,imnpst"
+	if n.prefixes == "(ov)@+" && r.Chance(40) {
+		n.chanmodes = "eIbq,k,flj,CFLMPQScgimnprstuz" // a network where 'q' is a list mode (quiet), with more class C/D letters
+	}
 	n.extJoin, n.uhNames = r.Bool(), r.Bool()
 	if r.Chance(30) {
 		n.me = "Me2" // the server renames us on connect
@@ -428,8 +440,8 @@ func simHistory(r *RNG, length int) []string {
 	if r.Chance(70) {
 		n.emit(":srv 004 %s srv.example.org ircd-9.9 iow beIklimnpst", n.me)
 	}
-	if n.prefixes != "(ov)@+" || r.Bool() {
-		n.emit(":srv 005 %s PREFIX=%s CHANMODES=beI,k,l,imnpst NICKLEN=%d NETWORK=SimNet :are supported by this server", n.me, n.prefixes, 9+r.Intn(30))
+	if n.prefixes != "(ov)@+" || n.chanmodes != "beI,k,l,imnpst" || r.Bool() {
+		n.emit(":srv 005 %s PREFIX=%s CHANMODES=%s NICKLEN=%d NETWORK=SimNet :are supported by this server", n.me, n.prefixes, n.chanmodes, 9+r.Intn(30))
 	}
 	if r.Bool() {
 		n.emit(":srv 375 %s :- srv Message of the day -", n.me)
